@@ -11,6 +11,7 @@ import numpy as np
 
 from ..common import setup_paths, rnd, enc, dec as jdec
 from .. import refgauss as rg, gen
+from ..instrument import MergeProgress, NoProgress
 
 PROPERTY = "C11"
 RULE = ("seeded circuits over the accepted primitives and decomposables, with and without dagger, on subsets of registers of "
@@ -58,11 +59,14 @@ def gen_case(rng):
         # hybrid, small, for fock execution
         n = int(rng.integers(2, 4))
         used = list(range(n))
-        L = int(rng.integers(3, 10))
+        L = int(rng.integers(3, 10)) if rng.random() < 0.8 else int(rng.integers(10, 16))
         cmds = []
         for _ in range(L):
             r = rng.random()
-            if r < 0.3:
+            if n == 3 and r < 0.08:
+                # a three-mode Gaussian operation: fan-in of three unrelated predecessors in the merge DAG
+                cmds.append({"op": "Interferometer", "p": [enc(gen.haar(rng, 3))], "m": [int(x) for x in rng.permutation(3)], "dag": False})
+            elif r < 0.3:
                 nm = str(rng.choice(["Kgate", "Vgate"]))
                 cmds.append({"op": nm, "p": [float(rng.uniform(0.3, 1.0)) * (0.15 if nm == "Vgate" else 1)], "m": [int(rng.integers(n))],
                              "dag": bool(rng.random() < 0.2)})
@@ -84,6 +88,17 @@ def gen_case(rng):
                 if nm in ("BSgate", "MZgate"):
                     p[0] = float(rng.uniform(-1.5, 1.5))
                 cmds.append({"op": nm, "p": p, "m": [a, b], "dag": bool(rng.random() < 0.25)})
+        if n == 3 and rng.random() < 0.15:
+            # fan-in motif: a two-mode non-Gaussian gate, one-mode Gaussian gates on two different modes, and a three-mode
+            # Gaussian operation that has all three as direct predecessors
+            a, b, c = (int(x) for x in rng.permutation(3))
+            one = lambda m: {"op": (nm_ := str(rng.choice(["Dgate", "Dgate", "Sgate", "Rgate"]))),
+                             "p": [float(rng.uniform(0.05, 0.15))] + ([float(rng.uniform(0, 6.28))] if nm_ != "Rgate" else []),
+                             "m": [m], "dag": False}
+            motif = [{"op": "CKgate", "p": [float(rng.uniform(0.3, 1.0))], "m": [a, b], "dag": False}, one(b), one(c),
+                     {"op": "Interferometer", "p": [enc(gen.haar(rng, 3))], "m": [int(x) for x in rng.permutation(3)], "dag": False}]
+            at = int(rng.integers(0, len(cmds) + 1))
+            cmds[at:at] = motif
         ket = np.zeros((8 if n == 2 else 7,) * n, dtype=complex)
         sl = tuple(slice(0, 3 if n == 2 else 2) for _ in range(n))
         ket[sl] = rng.normal(size=ket[sl].shape) + 1j * rng.normal(size=ket[sl].shape)
@@ -154,7 +169,15 @@ def run_case(case, rep, env):
         rep.monitor("index-sets:hash-order")
     anydag = any(c.get("dag") for c in cmds)
     try:
-        compiled = prog.compile(compiler=comp)
+        with MergeProgress() as mp:
+            compiled = prog.compile(compiler=comp)
+        if comp == "gaussian_merge":
+            rep.monitor("gaussian_merge:termination")
+            rep.observe("gaussian_merge.rewrite-steps<=%d" % (4 * ((mp.max_steps + 3) // 4)))
+    except NoProgress as e:
+        rep.monitor("gaussian_merge:termination")
+        V("no-progress", "GaussianMerge.compile's rewrite loop never ends: %s" % str(e)[:300])
+        return
     except pu.CircuitError as e:
         rep.observe("rejected:%s:CircuitError" % comp)
         return
@@ -201,6 +224,11 @@ def run_case(case, rep, env):
 def run_hybrid(case, rep, env, prog, compiled):
     sf, ops, simrun = env["sf"], env["ops"], env["simrun"]
     n = case["n"]
+    if len(case["cmds"]) >= 10:
+        # long hybrid circuits exercise the rewrite loop (termination monitor, structure); their energy outgrows the
+        # small Fock space of the execution leg, which is left to the short ones
+        rep.observe("hybrid.compile-only(long)")
+        return
     ket = jdec(case["ket"])
     D = ket.shape[0]
     states = []
